@@ -975,6 +975,7 @@ def rule_EF3(ctx, tier):
             rr.fail("const:%s=%s" % (path.split("::")[-1], v), "`%s` is %s, the documented value is %s" % (path, v, want))
     cval("teos_common::constants::IRREVOCABLY_RESOLVED", 100)
     cval("teos_common::constants::ENCRYPTED_BLOB_MAX_SIZE", 2048)
+    cval("teos_common::USER_ID_LEN", 33)      # a compressed secp256k1 public key, the user id on the wire
     cval("teos_common::appointment::LOCATOR_LEN", 16)
     cval("teos::responder::CONFIRMATIONS_BEFORE_RETRY", 6)
     m = P.require(MAIN + "::{closure#0}")
